@@ -190,7 +190,7 @@ def run(ctx: Ctx) -> int:
         if c[2]:      # I2C wiring: brightness() is parallel-only (as in gen_case)
             ops_g = [o for o in ops_g if o[0] != "bri"] or [("clr",)]
         cases.append((g[0], g[1], c[2], ops_g))
-    for _ in range(ctx.n(70, 400)):
+    for _ in range(ctx.n(200, 400)):
         cases.append(gen_case(rng))
     # pinned: message(clear_rows=False) over existing content keeps what the new text does not cover — on both rows, both wirings
     for wiring in (False, True):
